@@ -14,10 +14,39 @@ func vhModelSortCmdList(vec []Cmd) {
 	}
 }
 
+// vhWide selects the alphabet of symbolic names: false = bytes 'a'..'c' (names sharing prefixes), true = all 256 byte values
+var vhWide bool
+
+func vhName(what string) string {
+	if vhWide {
+		return vhStr(what, 3)
+	}
+	return vhStrRange(what, 3, 'a', 'c')
+}
+
+func vhName2(what string) string {
+	if vhWide {
+		return vhStr(what, 2)
+	}
+	return vhStrRange(what, 2, 'a', 'c')
+}
+
+func vhWideRun(f func()) {
+	vhWide = true
+	defer func() { vhWide = false }()
+	f()
+}
+
+func VH_C37_T_wide_prefixSearch2() { vhWideRun(func() { vhCheckPrefixSearch(2) }) }
+func VH_C37_T_wide_binarySearch2() { vhWideRun(func() { vhCheckBinarySearch(2) }) }
+func VH_C37_T_wide_addStep1()      { vhWideRun(func() { vhCheckAddStep(1) }) }
+func VH_C37_T_wide_delStep1()      { vhWideRun(func() { vhCheckDelStep(1) }) }
+func VH_C37_T_wide_removeCmd3()    { vhWideRun(func() { vhCheckRemoveCmd(3) }) }
+
 func vhSortedNames(n int) []Cmd {
 	vec := make([]Cmd, n)
 	for i := 0; i < n; i++ {
-		vec[i].Name = vhStr("name", 3)
+		vec[i].Name = vhName("name")
 		vhAssume(len(vec[i].Name) > 0)
 		if i > 0 {
 			vhAssume(vec[i-1].Name < vec[i].Name)
@@ -45,7 +74,7 @@ func vhRefLookup(vec []Cmd, p string) (cnt, first, exact int) {
 
 func vhCheckPrefixSearch(n int) {
 	vec := vhSortedNames(n)
-	p := vhStr("prefix", 3)
+	p := vhName("prefix")
 	vhAssume(len(p) > 0)
 	i, err := prefixSearch(vec, p)
 	cnt, first, exact := vhRefLookup(vec, p)
@@ -76,12 +105,12 @@ func vhCheckPrefixSearch(n int) {
 
 func VH_C37_prefixSearch1() { vhCheckPrefixSearch(1) }
 func VH_C37_prefixSearch2() { vhCheckPrefixSearch(2) }
-func VH_C37_prefixSearch3() { vhCheckPrefixSearch(3) }
+func VH_C37_T_prefixSearch3() { vhCheckPrefixSearch(3) }
 func VH_C37_T_prefixSearch4() { vhCheckPrefixSearch(4) }
 
 func vhCheckBinarySearch(n int) {
 	vec := vhSortedNames(n)
-	p := vhStr("exact", 3)
+	p := vhName("exact")
 	pos, ok := binarySearch(vec, p)
 	found := -1
 	ins := 0
@@ -105,14 +134,14 @@ func VH_C37_binarySearch0() { vhCheckBinarySearch(0) }
 func VH_C37_binarySearch1() { vhCheckBinarySearch(1) }
 func VH_C37_binarySearch2() { vhCheckBinarySearch(2) }
 func VH_C37_binarySearch3() { vhCheckBinarySearch(3) }
-func VH_C37_binarySearch4() { vhCheckBinarySearch(4) }
+func VH_C37_T_binarySearch4() { vhCheckBinarySearch(4) }
 func VH_C37_T_binarySearch5() { vhCheckBinarySearch(5) }
 
 func vhCheckRemoveCmd(n int) {
 	vec := make([]Cmd, n)
 	names := make([]string, n)
 	for i := range vec {
-		names[i] = vhStr("name", 2)
+		names[i] = vhName2("name")
 		vec[i].Name = names[i]
 	}
 	pos := vhPick("pos", n)
@@ -160,7 +189,7 @@ func vhBuildTable(n int) (Cmds, []string) {
 	cmds := Cmds{m: map[byte][]Cmd{}}
 	names := make([]string, n)
 	for i := 0; i < n; i++ {
-		names[i] = vhStr("name", 2)
+		names[i] = vhName2("name")
 		vhAssume(len(names[i]) > 0)
 		cmds.Add(Cmd{Name: names[i], Help: names[i]})
 	}
@@ -170,7 +199,7 @@ func vhBuildTable(n int) (Cmds, []string) {
 func vhCheckLookupAfterAdds(n int) {
 	cmds, names := vhBuildTable(n)
 	vhAssert(vhTableOK(cmds), "table invariant holds after Add")
-	p := vhStr("prefix", 2)
+	p := vhName2("prefix")
 	vhAssume(len(p) > 0)
 	cmd, err := cmds.Lookup(p)
 	// reference over the distinct names added
@@ -206,12 +235,12 @@ func vhCheckLookupAfterAdds(n int) {
 }
 
 func VH_C37_lookupAfterAdd1() { vhCheckLookupAfterAdds(1) }
-func VH_C37_lookupAfterAdd2() { vhCheckLookupAfterAdds(2) }
+func VH_C37_T_lookupAfterAdd2() { vhCheckLookupAfterAdds(2) }
 func VH_C37_T_lookupAfterAdd3() { vhCheckLookupAfterAdds(3) }
 
 func vhCheckDel(n int) {
 	cmds, names := vhBuildTable(n)
-	victim := vhStr("victim", 2)
+	victim := vhName2("victim")
 	was := false
 	for i := range names {
 		if names[i] == victim {
@@ -239,5 +268,98 @@ func vhCheckDel(n int) {
 }
 
 func VH_C37_del1() { vhCheckDel(1) }
-func VH_C37_del2() { vhCheckDel(2) }
+func VH_C37_T_del2() { vhCheckDel(2) }
 func VH_C37_T_del3() { vhCheckDel(3) }
+
+// ---- one inductive step on an arbitrary valid bucket (pattern C) ----
+
+// vhBucket: a table holding one bucket of n sorted, distinct names that all start with byte c
+func vhBucket(n int) (Cmds, []Cmd, byte) {
+	vec := vhSortedNames(n)
+	c := vhU8("bucket")
+	for i := range vec {
+		vhAssume(vec[i].Name[0] == c)
+	}
+	cmds := Cmds{m: map[byte][]Cmd{}}
+	if n > 0 {
+		cmds.m[c] = vec
+	}
+	return cmds, vec, c
+}
+
+func vhCheckAddStep(n int) {
+	cmds, vec, c := vhBucket(n)
+	old := make([]string, n)
+	for i := range vec {
+		old[i] = vec[i].Name
+	}
+	name := vhName("new")
+	vhAssume(len(name) > 0 && name[0] == c)
+	ok := cmds.Add(Cmd{Name: name, Help: "new"})
+	vhAssert(ok, "Add of a non-empty name succeeds")
+	vhAssert(vhTableOK(cmds), "table invariant preserved by Add")
+	had := false
+	for i := range old {
+		if old[i] == name {
+			had = true
+		}
+	}
+	nv := cmds.m[c]
+	if had {
+		vhAssert(len(nv) == n, "re-adding an existing name does not grow the table")
+	} else {
+		vhAssert(len(nv) == n+1, "a new name grows the table by one")
+	}
+	got, err := cmds.Lookup(name)
+	vhAssert(err == nil && got.Name == name && got.Help == "new", "the added command resolves by its full name to the new definition")
+	for i := range old {
+		if old[i] != name {
+			g2, err2 := cmds.Lookup(old[i])
+			vhAssert(err2 == nil && g2.Name == old[i], "existing commands still resolve by full name after Add")
+		}
+	}
+	vhReach("end")
+}
+
+func VH_C37_addStep0() { vhCheckAddStep(0) }
+func VH_C37_addStep1() { vhCheckAddStep(1) }
+func VH_C37_addStep2() { vhCheckAddStep(2) }
+func VH_C37_T_addStep3() { vhCheckAddStep(3) }
+
+func vhCheckDelStep(n int) {
+	cmds, vec, c := vhBucket(n)
+	old := make([]string, n)
+	for i := range vec {
+		old[i] = vec[i].Name
+	}
+	name := vhName("victim")
+	had := false
+	for i := range old {
+		if old[i] == name {
+			had = true
+		}
+	}
+	ok := cmds.Del(name)
+	vhAssert(ok == had, "Del reports whether the command existed")
+	vhAssert(vhTableOK(cmds), "table invariant preserved by Del")
+	nv := cmds.m[c]
+	if had {
+		vhAssert(len(nv) == n-1, "Del removes exactly one command")
+	} else {
+		vhAssert(len(nv) == n, "Del of an unknown name changes nothing")
+	}
+	for i := range nv {
+		vhAssert(nv[i].Name != name, "deleted command is gone")
+	}
+	for i := range old {
+		if old[i] != name {
+			g2, err2 := cmds.Lookup(old[i])
+			vhAssert(err2 == nil && g2.Name == old[i], "other commands still resolve by full name after Del")
+		}
+	}
+	vhReach("end")
+}
+
+func VH_C37_delStep1() { vhCheckDelStep(1) }
+func VH_C37_delStep2() { vhCheckDelStep(2) }
+func VH_C37_T_delStep3() { vhCheckDelStep(3) }
